@@ -331,9 +331,9 @@ impl SwiftField for Field50K {
         // Check if first line is account (with leading slash in MT format)
         if lines[0].starts_with('/') {
             let acc = &lines[0][1..];
-            if acc.len() > 34 {
+            if acc.is_empty() || acc.len() > 34 {
                 return Err(ParseError::InvalidFormat {
-                    message: "Field 50K account exceeds 34 characters".to_string(),
+                    message: "Field 50K account must be 1 to 34 characters".to_string(),
                 });
             }
             parse_swift_chars(acc, "Field 50K account")?;
